@@ -1,6 +1,6 @@
 """The verdict logic shared by all properties (DESIGN.md §2.4, §4): proof obligations + correspondence obligations
 + property oracles -> exit status, VIOLATION / KNOWN-FINDING lines, evidence file, replay files."""
-import collections, importlib, json, os, sys, time
+import collections, importlib, json, os, re, subprocess, sys, time
 from pathlib import Path
 from . import common as C
 
@@ -159,6 +159,34 @@ def run_check(prop, tier, replay_path=None):
         status = 1
     elif failing and proof_broken:
         lines.append("  (also) proof obligations that no longer check: " + "; ".join(proof_broken[:8]))
+    # ---- 3b. escalation (DESIGN.md §11.8): a file this property is anchored in differs from its pin and the quick tier found
+    # nothing -> the thorough tier of this property runs once, time-boxed; what it finds is reported as this run's finding
+    escalation = None
+    if status == 0 and tier == "quick" and not replay_path and not os.environ.get("VERIF_ESCALATED"):
+        try:
+            from . import pins
+            aff = pins.affected(prop)
+        except Exception as e:       # the pins are an aid, never a reason to fail
+            aff = []
+        if aff and not corr.info.get("deepened"):      # (a module that already took its thorough inputs says so)
+            budget = int(os.environ.get("VERIF_ESCALATION_BUDGET", "540"))
+            t1 = time.time()
+            env = dict(os.environ); env["VERIF_ESCALATED"] = "1"
+            escalation = {"changed_files": aff, "budget_s": budget}
+            try:
+                pr = subprocess.run([sys.executable, str(C.VERIF / "check.py"), prop, "--tier", "thorough"], cwd=str(C.VERIF), env=env,
+                                    capture_output=True, text=True, errors="replace", timeout=budget)
+                out = pr.stdout.splitlines()
+                vl = [i for i, l in enumerate(out) if l.startswith("VIOLATION")]
+                escalation.update({"finished": True, "exit": pr.returncode, "wall_s": round(time.time() - t1, 1), "violations": len(vl)})
+                for i in vl[:6]:
+                    lines.append(out[i])
+                    if i + 1 < len(out) and out[i + 1].startswith("  "):
+                        lines.append(out[i + 1])
+                if vl:
+                    status = 1
+            except subprocess.TimeoutExpired:
+                escalation.update({"finished": False, "wall_s": round(time.time() - t1, 1)})
     # ---- 4. evidence
     n_corr = len(corr.obl)
     held = sum(1 for o in corr.obl.values() if o["cases"] > 0 and o["disagreements"] == 0)
@@ -188,8 +216,9 @@ def run_check(prop, tier, replay_path=None):
             "per_build_config": dict(corr.configs),
             "uncovered_obligations": uncovered,
             "leanchecker": [l[0] for l in lc] if lc else None,
-            "info": corr.info,
-            "notes": corr.notes,
+            "info": dict(corr.info, **({"escalation": escalation} if escalation else {})),
+            "notes": corr.notes + (["files this property is anchored in differ from their pins (" + ", ".join(escalation["changed_files"][:6]) +
+                                    "): the thorough tier ran as a time-boxed second pass"] if escalation else []),
             "exhaustive": False,
         },
         "assumptions": META.get("assumptions", []),
@@ -197,7 +226,7 @@ def run_check(prop, tier, replay_path=None):
         "violations": len(failing) + (1 if (status and not failing) else 0),
         "known_findings_reobserved": [l for l in lines if l.startswith("KNOWN-FINDING")],
     }
-    if not replay_path:
+    if not replay_path and not os.environ.get("VERIF_ESCALATED"):
         # evidence is only ever written from a run against /repo itself; trial runs against a scratch copy
         # (COVFIE_REPO=...) leave the committed record alone
         edir = C.VERIF / ("evidence" if str(C.REPO) == "/repo" else ".work/evidence-scratch")
